@@ -1244,7 +1244,17 @@ namespace ipr {
       }
 
       void visit(const Type& t) final { pp << xpr_type(t); }
-      void visit(const Expr& e) final { pp << xpr_assignment_expression(e); }
+      void visit(const Expr& e) final
+      {
+         // An expression that no production of the grammar claims is not
+         // supported; parenthesizing it would only lead back here.
+         struct Impl : xpr::Assignment_expr {
+            using xpr::Assignment_expr::Assignment_expr;
+            void visit(const Expr& x) final { Missing_overrider::operator()(x); }
+         };
+         Impl impl(pp);
+         e.accept(impl);
+      }
       void visit(const Stmt& s) final { pp << xpr_stmt(s); }
       void visit(const Decl& d) final
       {
